@@ -12,18 +12,31 @@ package asn1parser
 //@ spec func readerOK(r ref) bool = r != nil && (typeis(r, *hashing.HashingReaderWrapper) ==> wrapperOK(as(r, *hashing.HashingReaderWrapper))) && (typeis(r, *bufio.Reader) ==> as(r, *bufio.Reader) != nil)
 //@ spec func wrapperOK(t ref) bool = t != nil && t.Reader != nil && (t.CalculateSignature ==> t.hash != nil)
 
+//@ spec func sid(r ref) int = ite(typeis(r, *hashing.HashingReaderWrapper), as(r, *hashing.HashingReaderWrapper).Reader, payload(r))
+//@ spec func at(r ref, k int) int = $sdata[sid(r)][$spos[sid(r)] + k]
+
+// X.690 definite-length header at stream offset k (length-of-length up to 4 bytes spelled out; longer ones abstract)
+//@ spec func derLenBig(s int, p int, n int) int uninterpreted
+//@ spec func derLenSize(r ref, k int) int = ite(at(r, k) < 128, 1, 1 + at(r, k) % 16)
+//@ spec func derLen(r ref, k int) int = ite(at(r, k) < 128, at(r, k), ite(at(r, k) % 16 == 0, 0, ite(at(r, k) % 16 == 1, at(r, k + 1), ite(at(r, k) % 16 == 2, at(r, k + 1) * 256 + at(r, k + 2), ite(at(r, k) % 16 == 3, at(r, k + 1) * 65536 + at(r, k + 2) * 256 + at(r, k + 3), ite(at(r, k) % 16 == 4, at(r, k + 1) * 16777216 + at(r, k + 2) * 65536 + at(r, k + 3) * 256 + at(r, k + 4), derLenBig(sid(r), $spos[sid(r)] + k, at(r, k) % 16)))))))
+//@ spec func pos(r ref) int = $spos[sid(r)]
+//@ spec func otherStreamsKept(r ref) bool = forall s int :: s != sid(r) ==> $spos[s] == old($spos[s])
+
 //@ func Asn1Reader.Read
-//@   props C07
+//@   props C07 C06
 //@   requires readerOK(self)
-//@   assigns *p, X.stream
+//@   assigns *p, X.stream, X.spos
 //@   ensures n_range: 0 <= r0 && r0 <= len(p)
 //@   ensures progress: err == nil && len(p) > 0 ==> r0 > 0
+//@   ensures[C06] position: $spos[sid(self)] == old($spos[sid(self)]) + r0 && (forall s int :: s != old(sid(self)) ==> $spos[s] == old($spos[s]))
+//@   ensures[C06] content: forall a int :: {elem(p, a)} offset(p) <= a && a < offset(p) + r0 ==> elem(p, a) == $sdata[sid(self)][old($spos[sid(self)]) + (a - offset(p))]
 
 //@ func Asn1Reader.Peek
 //@   props C07
 //@   requires readerOK(self)
 //@   assigns X.stream
 //@   ensures err == nil ==> len(ret) == n && n >= 0 && n <= 4096
+//@   ensures[C06] content: err == nil ==> forall a int :: {elem(ret, a)} offset(ret) <= a && a < offset(ret) + n ==> elem(ret, a) == at(self, a - offset(ret))
 
 // ---- byte movers
 
@@ -33,9 +46,17 @@ package asn1parser
 //@   requires 0 <= targetBytePosition && 0 <= countOfBytesToAdd
 //@   requires countOfBytesToAdd <= len(bytesToAdd)
 //@   requires targetBytePosition + countOfBytesToAdd <= len(*targetBytes)
+//@   requires no_overlap: !samearray(*targetBytes, bytesToAdd)
 //@   assigns E.uint8
 //@   loop 1 invariant targetBytePosition <= i && i <= targetBytePosition + countOfBytesToAdd
 //@   loop 1 decreases targetBytePosition + countOfBytesToAdd - i
+//@   ensures[C06] copied: forall a int :: {elem(*targetBytes, a)} offset(*targetBytes) + targetBytePosition <= a && a < offset(*targetBytes) + targetBytePosition + countOfBytesToAdd ==> elem(*targetBytes, a) == old(elem(bytesToAdd, a - (offset(*targetBytes) + targetBytePosition) + offset(bytesToAdd)))
+//@   ensures[C06] rest_kept: forall a int :: {elem(*targetBytes, a)} a < offset(*targetBytes) + targetBytePosition || a >= offset(*targetBytes) + targetBytePosition + countOfBytesToAdd ==> elem(*targetBytes, a) == old(elem(*targetBytes, a))
+//@   ensures *targetBytes == old(*targetBytes)
+//@   loop 1 invariant[C06] forall a int :: {elem(*targetBytes, a)} offset(*targetBytes) + targetBytePosition <= a && a < offset(*targetBytes) + i ==> elem(*targetBytes, a) == elem(bytesToAdd, a - (offset(*targetBytes) + targetBytePosition) + offset(bytesToAdd))
+//@   loop 1 invariant[C06] forall a int :: {elem(*targetBytes, a)} a < offset(*targetBytes) + targetBytePosition || a >= offset(*targetBytes) + i ==> elem(*targetBytes, a) == old(elem(*targetBytes, a))
+//@   loop 1 invariant *targetBytes == old(*targetBytes) && bytesToAdd == old(bytesToAdd)
+//@   loop 1 invariant[C06] forall a int :: {elem(bytesToAdd, a)} elem(bytesToAdd, a) == old(elem(bytesToAdd, a))
 
 //@ func ReadExpectedBytesRecursive
 //@   props C07
@@ -43,15 +64,23 @@ package asn1parser
 //@   requires 0 <= currentPosition && currentPosition <= byteSize && len(*byteArray) == byteSize
 //@   requires[C07,C17] bounded: byteSize <= 81937
 //@   decreases byteSize - currentPosition
-//@   assigns E.uint8, X.stream
+//@   assigns E.uint8, X.stream, X.spos
+//@   ensures *byteArray == old(*byteArray)
+//@   ensures[C06] position: err == nil ==> pos(reader) == old(pos(reader)) + (byteSize - currentPosition) && otherStreamsKept(reader)
+//@   ensures[C06] content: err == nil ==> forall a int :: {elem(*byteArray, a)} offset(*byteArray) + currentPosition <= a && a < offset(*byteArray) + byteSize ==> elem(*byteArray, a) == old(at(reader, a - offset(*byteArray) - currentPosition))
+//@   ensures[C06] prefix_kept: forall a int :: {elem(*byteArray, a)} a < offset(*byteArray) + currentPosition ==> elem(*byteArray, a) == old(elem(*byteArray, a))
+//@   ensures pos(reader) >= old(pos(reader))
 
 //@ func ReadExpectedBytes
 //@   props C07
 //@   requires readerOK(reader)
 //@   requires nonneg: byteSize >= 0
 //@   requires[C07,C17] bounded: byteSize <= 81937
-//@   assigns E.uint8, X.stream
+//@   assigns E.uint8, X.stream, X.spos
 //@   ensures err == nil ==> len(ret) == byteSize
+//@   ensures[C06] position: err == nil ==> pos(reader) == old(pos(reader)) + byteSize && otherStreamsKept(reader)
+//@   ensures[C06] content: err == nil ==> forall a int :: {elem(ret, a)} offset(ret) <= a && a < offset(ret) + byteSize ==> elem(ret, a) == old(at(reader, a - offset(ret)))
+//@   ensures pos(reader) >= old(pos(reader))
 
 //@ func PeekExpectedBytes
 //@   props C07
@@ -60,67 +89,84 @@ package asn1parser
 //@   requires[C07,C17] bounded: byteSize <= 81937
 //@   assigns E.uint8, X.stream
 //@   ensures err == nil ==> len(ret) == byteSize && byteSize + offset <= 4096
+//@   ensures[C06] content: err == nil ==> forall a int :: {elem(ret, a)} offset(ret) <= a && a < offset(ret) + byteSize ==> elem(ret, a) == at(reader, offset + (a - offset(ret)))
 
 // ---- header decoding
 
 //@ func ReadTag
 //@   props C07
 //@   requires readerOK(reader)
-//@   assigns E.uint8, X.stream
+//@   assigns E.uint8, X.stream, X.spos
 //@   ensures err == nil ==> ret != nil
+//@   ensures[C06] err == nil ==> *ret == old(at(reader, 0)) && pos(reader) == old(pos(reader)) + 1 && otherStreamsKept(reader)
+//@   ensures pos(reader) >= old(pos(reader))
 
 //@ func PeekTag
 //@   props C07
 //@   requires readerOK(reader) && 0 <= offset 
 //@   assigns E.uint8, X.stream
 //@   ensures err == nil ==> ret != nil && offset < 4096
+//@   ensures[C06] err == nil ==> *ret == at(reader, offset)
 
 //@ func ReadUint8
 //@   props C07
 //@   requires readerOK(reader)
-//@   assigns E.uint8, X.stream
+//@   assigns E.uint8, X.stream, X.spos
+//@   ensures[C06] err == nil ==> r0 == old(at(reader, 0)) && pos(reader) == old(pos(reader)) + 1 && otherStreamsKept(reader)
+//@   ensures pos(reader) >= old(pos(reader))
 
 //@ func PeekUint8
 //@   props C07
 //@   requires readerOK(reader) && 0 <= offset
 //@   assigns E.uint8, X.stream
 //@   ensures err == nil ==> offset < 4096
+//@   ensures[C06] err == nil ==> r0 == at(reader, offset)
 
 //@ func ReadExpectedBigInt
 //@   props C07
 //@   requires readerOK(reader) && 0 <= sizeOfLength && sizeOfLength <= 15
-//@   assigns E.uint8, X.stream
+//@   assigns E.uint8, X.stream, X.spos
 //@   ensures err == nil ==> ret != nil && 0 <= big(ret) && big(ret) < pow256(sizeOfLength)
+//@   ensures[C06] value: err == nil ==> (sizeOfLength == 0 ==> big(ret) == 0) && (sizeOfLength == 1 ==> big(ret) == old(at(reader, 0))) && (sizeOfLength == 2 ==> big(ret) == old(at(reader, 0)) * 256 + old(at(reader, 1))) && (sizeOfLength == 3 ==> big(ret) == old(at(reader, 0)) * 65536 + old(at(reader, 1)) * 256 + old(at(reader, 2))) && (sizeOfLength == 4 ==> big(ret) == old(at(reader, 0)) * 16777216 + old(at(reader, 1)) * 65536 + old(at(reader, 2)) * 256 + old(at(reader, 3)))
+//@   ensures[C06] position: err == nil ==> pos(reader) == old(pos(reader)) + sizeOfLength && otherStreamsKept(reader)
+//@   ensures pos(reader) >= old(pos(reader))
 
 //@ func PeekExpectedBigInt
 //@   props C07
 //@   requires readerOK(reader) && 0 <= sizeOfLength && sizeOfLength <= 15 && 0 <= offset
 //@   assigns E.uint8, X.stream
 //@   ensures err == nil ==> ret != nil && 0 <= big(ret) && big(ret) < pow256(sizeOfLength)
+//@   ensures[C06] value: err == nil ==> (sizeOfLength == 0 ==> big(ret) == 0) && (sizeOfLength == 1 ==> big(ret) == at(reader, offset)) && (sizeOfLength == 2 ==> big(ret) == at(reader, offset) * 256 + at(reader, offset + 1)) && (sizeOfLength == 3 ==> big(ret) == at(reader, offset) * 65536 + at(reader, offset + 1) * 256 + at(reader, offset + 2)) && (sizeOfLength == 4 ==> big(ret) == at(reader, offset) * 16777216 + at(reader, offset + 1) * 65536 + at(reader, offset + 2) * 256 + at(reader, offset + 3))
 
 //@ func ReadLength
 //@   props C07
 //@   requires readerOK(reader)
-//@   assigns E.uint8, X.stream
+//@   assigns E.uint8, X.stream, X.spos
 //@   ensures err == nil ==> ret != nil && 1 <= ret.LengthSize && ret.LengthSize <= 16 && 0 <= ret.Length && ret.Length < pow256(ret.LengthSize - 1) + 128
+//@   ensures[C06] header: err == nil ==> ret.LengthSize == old(derLenSize(reader, 0)) && (ret.LengthSize <= 5 ==> ret.Length == old(derLen(reader, 0))) && pos(reader) == old(pos(reader)) + ret.LengthSize && otherStreamsKept(reader)
+//@   ensures pos(reader) >= old(pos(reader))
 
 //@ func PeekLength
 //@   props C07
 //@   requires readerOK(reader) && 0 <= offset
 //@   assigns E.uint8, X.stream
 //@   ensures err == nil ==> ret != nil && 1 <= ret.LengthSize && ret.LengthSize <= 16 && 0 <= ret.Length && ret.Length < pow256(ret.LengthSize - 1) + 128
+//@   ensures[C06] header: err == nil ==> ret.LengthSize == derLenSize(reader, offset) && (ret.LengthSize <= 5 ==> ret.Length == derLen(reader, offset))
 
 //@ func ReadTagLength
 //@   props C07
 //@   requires readerOK(reader)
-//@   assigns E.uint8, X.stream
+//@   assigns E.uint8, X.stream, X.spos
 //@   ensures err == nil ==> ret != nil && 1 <= ret.Length.LengthSize && ret.Length.LengthSize <= 16 && 0 <= ret.Length.Length
+//@   ensures[C06] header: err == nil ==> ret.Tag == old(at(reader, 0)) && ret.Length.LengthSize == old(derLenSize(reader, 1)) && (ret.Length.LengthSize <= 5 ==> ret.Length.Length == old(derLen(reader, 1))) && pos(reader) == old(pos(reader)) + 1 + ret.Length.LengthSize && otherStreamsKept(reader)
+//@   ensures pos(reader) >= old(pos(reader))
 
 //@ func PeekTagLength
 //@   props C07
 //@   requires readerOK(reader) && 0 <= offset 
 //@   assigns E.uint8, X.stream
 //@   ensures err == nil ==> ret != nil && 1 <= ret.Length.LengthSize && ret.Length.LengthSize <= 16 && 0 <= ret.Length.Length && offset < 4096
+//@   ensures[C06] header: err == nil ==> ret.Tag == at(reader, offset) && ret.Length.LengthSize == derLenSize(reader, offset + 1) && (ret.Length.LengthSize <= 5 ==> ret.Length.Length == derLen(reader, offset + 1))
 
 //@ func ExpectTag
 //@   props C07
@@ -179,37 +225,47 @@ package asn1parser
 //@   requires readerOK(reader)
 //@   requires 0 <= tagLength.Length.Length && 1 <= tagLength.Length.LengthSize && tagLength.Length.LengthSize <= 16
 //@   requires[C07,C17] limit: maxLength <= 81920
-//@   assigns E.uint8, X.stream
+//@   assigns E.uint8, X.stream, X.spos
 //@   ensures err == nil ==> len(ret) == tagLength.Length.Length + tagLength.Length.LengthSize + 1
+//@   ensures[C06] window: err == nil ==> pos(reader) == old(pos(reader)) + tagLength.Length.Length + tagLength.Length.LengthSize + 1 && otherStreamsKept(reader) && (forall a int :: {elem(ret, a)} offset(ret) <= a && a < offset(ret) + len(ret) ==> elem(ret, a) == old(at(reader, a - offset(ret))))
+//@   ensures pos(reader) >= old(pos(reader))
 
 //@ func ReadStruct
 //@   props C07 C06
 //@   requires readerOK(reader)
+//@   requires target_is_not_the_reader: payload(value) != payload(reader) && payload(value) != sid(reader)
 //@   requires[C06] target_zeroed: zeroed(value)
-//@   assigns *value, E.uint8, X.stream
+//@   assigns *value, E.uint8, X.stream, X.spos
+//@   ensures[C06] exact_window: err == nil && old(derLenSize(reader, 1)) <= 5 ==> pos(reader) == old(pos(reader)) + 1 + old(derLenSize(reader, 1)) + old(derLen(reader, 1)) && otherStreamsKept(reader)
+//@   ensures[C07] progress: err == nil ==> pos(reader) >= old(pos(reader)) + 2
+//@   ensures pos(reader) >= old(pos(reader))
 
 //@ func ReadUtcTime
 //@   props C07
 //@   requires readerOK(reader)
-//@   assigns E.uint8, X.stream
+//@   assigns E.uint8, X.stream, X.spos
 //@   ensures err == nil ==> ret != nil
+//@   ensures pos(reader) >= old(pos(reader))
 
 //@ func ParseBitString
 //@   props C07
 //@   requires readerOK(reader)
-//@   assigns E.uint8, X.stream
+//@   assigns E.uint8, X.stream, X.spos
 //@   ensures err == nil ==> ret != nil
+//@   ensures pos(reader) >= old(pos(reader))
 
 //@ func ParseOctetString
 //@   props C07
 //@   requires readerOK(reader)
-//@   assigns E.uint8, X.stream
+//@   assigns E.uint8, X.stream, X.spos
+//@   ensures pos(reader) >= old(pos(reader))
 
 //@ func ReadBigInt
 //@   props C07
 //@   requires readerOK(reader)
-//@   assigns E.uint8, X.stream
+//@   assigns E.uint8, X.stream, X.spos
 //@   ensures err == nil ==> ret != nil
+//@   ensures pos(reader) >= old(pos(reader))
 
 //@ func ParseUTCTime
 //@   props C07
@@ -218,17 +274,17 @@ package asn1parser
 
 //@ func ParseRDNSequence
 //@   props C07
-//@   assigns E.uint8, X.stream
+//@   assigns E.uint8, X.stream, X.spos
 //@   ensures err == nil ==> ret != nil
 
 //@ func ParseIssuerRDNSequence
 //@   props C07
 //@   requires cert != nil
-//@   assigns E.uint8, X.stream
+//@   assigns E.uint8, X.stream, X.spos
 //@   ensures err == nil ==> ret != nil
 
 //@ func ParseSubjectRDNSequence
 //@   props C07
 //@   requires cert != nil
-//@   assigns E.uint8, X.stream
+//@   assigns E.uint8, X.stream, X.spos
 //@   ensures err == nil ==> ret != nil
